@@ -193,3 +193,61 @@ func H_C15(steps, compressed int) {
 		verifAssert(ok && len(payload) == resp.ContentLength(), "C15: ContentLength() is not the number of body bytes (before content coding) the underlying writer accepted")
 	}
 }
+
+// H_C15_seq: "both are what filters after the handler observe", for a sequence of requests through a container: a
+// trailing container filter reads StatusCode()/ContentLength() after the chain returned and compares them with what
+// the request's own underlying writer received. n requests (symbolic payloads and statuses) through Dispatch
+// (entry 0) or ServeHTTP (entry 1), optionally to a second container sharing nothing but the package.
+func H_C15_seq(n, entry int) {
+	type seen struct{ status, length int }
+	var obs []seen
+	mk := func() *Container {
+		c := NewContainer()
+		c.Filter(func(req *Request, resp *Response, chain *FilterChain) {
+			chain.ProcessFilter(req, resp)
+			obs = append(obs, seen{resp.StatusCode(), resp.ContentLength()})
+		})
+		ws := new(WebService)
+		ws.Path("/t")
+		ws.Route(ws.GET("/{k}").To(func(req *Request, resp *Response) {
+			k := req.PathParameter("k")
+			switch nondetChoice("op-"+k, 4) {
+			case 0:
+				resp.Write([]byte(nondetString("payload-"+k, 3)))
+			case 1:
+				resp.WriteHeader([]int{201, 204, 500}[nondetChoice("st-"+k, 3)])
+				resp.Write([]byte(nondetString("payload-"+k, 3)))
+			case 2:
+				resp.WriteErrorString(400, "bad")
+			case 3:
+				resp.WriteHeaderAndEntity(202, vEntity{A: 1, B: "x"})
+			}
+		}))
+		c.Add(ws)
+		return c
+	}
+	cs := []*Container{mk(), mk()}
+	for i := 0; i < n; i++ {
+		w := &vFailW{hdr: http.Header{}, failAt: 100}
+		c := cs[nondetChoice("container"+vItoa(i), 2)]
+		req := vReq{method: "GET", path: "/t/r" + vItoa(i)}.http()
+		obs = nil
+		if entry == 1 {
+			c.ServeHTTP(w, req)
+		} else {
+			c.Dispatch(w, req)
+		}
+		verifAssert(len(obs) == 1, "C15: the trailing filter did not run exactly once")
+		if len(obs) != 1 {
+			return
+		}
+		exp := w.status
+		if exp == 0 {
+			exp = 200
+		}
+		verifObserveInt("status"+vItoa(i), obs[0].status)
+		verifAssert(obs[0].status == exp, "C15: StatusCode() seen by a filter after the handler differs from the status the underlying writer received")
+		verifAssert(obs[0].length == w.accepted, "C15: ContentLength() seen by a filter after the handler differs from the number of body bytes the underlying writer accepted")
+	}
+	verifCover("sequence-observed")
+}
